@@ -167,7 +167,18 @@ class Check(PropertyCheck):
         if d['kind'] != 'compound':
             return G.build_case(case), None, None
         if 'prev_a' not in case:
-            return G.build(d), G.build(d['a']), G.build(d['b'])
+            reg = G.build(d)
+            if int(abs(case['o'][0]) * 1e6) % 4 == 0:
+                # the compound's include flag is EDITED after construction (and after the compound was used): it is BUILT
+                # with the opposite flag, asked, then given the flag of the case
+                want = reg.meta.get('include', None)
+                reg = G.build(dict(d, include='false' if G.truthy(d.get('include', 'absent')) else 'true'))
+                G.warm(reg)
+                if want is None:
+                    del reg.meta['include']
+                else:
+                    reg.meta['include'] = want
+            return reg, G.build(d['a']), G.build(d['b'])
         from regions import CompoundPixelRegion
         opf = {'and': operator.and_, 'or': operator.or_, 'xor': operator.xor}[d['op']]
         r1, r2 = G.build(case['prev_a']), G.build(d['b'])
